@@ -50,6 +50,22 @@ def to_trace(run):
     return tr
 
 
+def instance_module(traces):
+    """Constants of the trace instance, derived from the batch of observations."""
+    from vh.sut.dflow_tla import tla
+    jobs, dirs, locs, pinned = [], set(), {}, {}
+    for tr in traces:
+        for e in tr:
+            if e["job"] not in locs:
+                jobs.append(e["job"])
+            locs.setdefault(e["job"], set()).update(e["locs"])
+            pinned[e["job"]] = list(e["pinned"])
+            dirs.update(e["dirs"])
+    fn = lambda name, f: "%s == [j \\in tJobs |-> CASE %s]" % (name, " [] ".join("j = %s -> %s" % (tla(j), f(j)) for j in jobs))
+    return "\n".join(["---- MODULE TraceJ ----", "EXTENDS Trace_JobDirs", "tJobs == %s" % tla(set(jobs)), "tDirs == %s" % tla(dirs),
+                      fn("tLocsOf", lambda j: tla(locs[j])), fn("tPinned", lambda j: tla(pinned[j])), "===="])
+
+
 def judge(ctx, d, r, tr, v):
     detail = {"desc": {k: d[k] for k in ("name", "steps", "inputs", "outputs", "fail", "classes")}, "seed": r["seed"], "trace": tr}
     for e in tr:
@@ -77,7 +93,8 @@ def run(ctx):
     ctx.require_coverage(r, ["Schedule"])
     ds = descs(ctx)
     seeds = ctx.pick(6, 40)
-    jobs = [(d, ctx.seed * 1000 + sd, []) for d in ds for sd in range(seeds)]
+    # the shell-based remote scenarios build chroot roots per run: fewer seeds for them
+    jobs = [(d, ctx.seed * 1000 + sd, []) for d in ds for sd in range(seeds if not d.get("remote") else ctx.pick(2, 10))]
     with ProcessPoolExecutor(max_workers=min(12, os.cpu_count() or 4)) as ex:
         runs = list(ex.map(dflow_check._worker, jobs, chunksize=2))
     traces = []
@@ -89,7 +106,7 @@ def run(ctx):
             e["job"] = "%d:%s" % (len(traces), e["job"])
         traces.append(tr0)
     ctx.require(all(traces), "no job token observed")
-    verdicts = trace.validate(ctx, "JobDirs", "Trace_JobDirs", "Trace_JobDirs.cfg", traces, timeout=900)
+    verdicts = trace.validate(ctx, "JobDirs", "TraceJ", "Trace_JobDirs.cfg", traces, timeout=900, files={"TraceJ.tla": instance_module(traces)})
     njobs = 0
     for (d, sd, _), rr, tr, v in zip(jobs, runs, traces, verdicts):
         njobs += len(tr)
@@ -106,5 +123,5 @@ def replay(ctx, data):
         return run(ctx)
     rr = dflow_check._worker((d, data["detail"].get("seed", 0), []))
     tr = to_trace(rr)
-    v = trace.validate(ctx, "JobDirs", "Trace_JobDirs", "Trace_JobDirs.cfg", [tr])[0]
+    v = trace.validate(ctx, "JobDirs", "TraceJ", "Trace_JobDirs.cfg", [tr], files={"TraceJ.tla": instance_module([tr])})[0]
     judge(ctx, d, rr, tr, v)
